@@ -24,8 +24,9 @@ CHECKS = {
          "never across generators; prints truth tables for contradiction, the fork-choice predicate cascade (2592 rows) and header priority; the harness evaluates the real "
          "functions on every row and on uint32-range pairs via rank compression. The chain-level rule is validated by IsHeaderContradictingChain probes in the LiskBFT trace. "
          "The algebraic facts (operational = declarative, symmetry, Better is a strict total preorder, a legitimate successor is Better, an honest generator never contradicts itself) are additionally discharged by Apalache for all natural field values "
-         "(spec/apalache/ContraInt.tla), with a weakened-comparison control that must be refuted.",
-         "Comparison-only structure of the contradiction spec justifies rank compression; receive times are placed mid-slot with 1000 s slots.",
+         "(spec/apalache/ContraInt.tla), with a weakened-comparison control that must be refuted. "
+         "What the node remembers about WHEN its tip arrived is bound by RecvTime.tla (moving wall clock: accepted / rejected children, competitors inside and outside their slot, restarts; exhaustive for 3 slots x 5 steps) whose simulated scripts are replayed side by side on real nodes with a 4 s block time in lock-step with the wall clock (guard bands, timing losses are inconclusive).",
+         "Comparison-only structure of the contradiction spec justifies rank compression; receive times are placed mid-slot with 1000 s slots in the tables and with 300 ms guard bands in the moving-clock replay.",
          "TLC-enumerated truth tables of a TLA+ transcription of LIP-0014 compared with the real functions", "DESIGN.md section 4 C07"),
  "C12": ("model_checking",
          "Trace validation (monitor form): a seeded driver runs operation sequences (set/del/get/has/range/iterate with limits and directions through several nested prefix views, "
